@@ -406,45 +406,50 @@ def _solve_unique(eqs, r16):
 
 
 def _check_is_good(rep, M, ce, vars, key, fn, reg, r16, residue, state, Ex, file):
+    """is_good is evaluated on a symbolic register (E-BITLIN with point splits): the set of register values for which it is true must be exactly
+    {the residue of the implemented step function} = {the RFC's good-FCS value}; whatever way the test is written"""
     at = f"{MOD}.{CLS}.is_good"
-    body = _body(fn)
-    if len(body) != 1 or not isinstance(body[0], ast.Return) or body[0].value is None:
-        raise Undecided("is_good is not a single return expression")
-    e = body[0].value
-    conj = list(e.values) if isinstance(e, ast.BoolOp) and isinstance(e.op, ast.And) else [e]
-    if isinstance(e, ast.BoolOp) and isinstance(e.op, ast.Or):
-        raise Undecided("is_good is a disjunction")
-    eqs, extra = [], []
-    for c in conj:
-        if isinstance(c, ast.Compare) and len(c.ops) == 1 and isinstance(c.ops[0], ast.Eq):
-            ex = Ex(M, ce, vars, MOD, key)
-            env = state(r16)
-            try:
-                a, b = ex.ev(c.left, env), ex.ev(c.comparators[0], env)
-            except Top:
-                extra.append(ast.unparse(c))
-                continue
-            if isinstance(a, BV) and isinstance(b, BV):
-                d = a ^ b
-                eqs.extend(d.bits)
-                continue
-        extra.append(ast.unparse(c))
-    if not eqs:
-        raise Undecided("is_good contains no comparison of the register")
-    sol = _solve_unique(eqs, r16)
-    if extra:
-        rep.violation("O5", at, "extra-condition", "is_good is not determined by `register == residue` alone: additional condition(s) can make it false for a message that ends with its FCS",
-                      file, fn.node.lineno, witness="; ".join(extra))
-    if sol[0] == "unique" and residue is not None and sol[1] == residue == GOOD:
-        if not extra:
-            rep.ok("O5", "good-FCS residue", f"repo step map composed with (~reg & 0xFF, ~reg >> 8) is the constant {hex(residue)}; is_good holds exactly for register = {hex(sol[1])}")
-    elif sol[0] == "unique":
-        rep.violation("O5", at, "residue", "is_good accepts a register value that is not the residue of the implemented step function",
-                      file, fn.node.lineno, witness=f"is_good true exactly for register {hex(sol[1])}; derived residue {hex(residue) if residue is not None else None}; RFC good-FCS {hex(GOOD)}")
-    elif sol[0] == "none":
+    try:
+        cs = explore(lambda sub, ne: _run(Ex, M, ce, vars, key, fn, state(r16.subst(sub)), ne))
+    except Top as e:
+        if "other state" in str(e):
+            return  # reported by the other-state rule
+        raise Undecided(f"is_good not analysable: {e}")
+    true_points, odd = [], []
+    for sub, ne, rv in cs:
+        if isinstance(rv, BV) and rv.is_const():
+            rv = rv.value() != 0
+        if isinstance(rv, Opq):
+            return  # reported by the other-state rule
+        if not isinstance(rv, (bool, int)) or isinstance(rv, BV):
+            odd.append((sub, rv))
+            continue
+        if rv:
+            pinned = [subst_bit(r16.bits[i], sub) for i in range(16)]
+            if all(b in (0, 1) for b in pinned):
+                true_points.append(sum(b << i for i, b in enumerate(pinned)))
+            else:
+                odd.append((sub, f"true on a set of registers ({sum(1 for b in pinned if b not in (0, 1))} free bits)"))
+    if odd:
+        n_free = odd[0][1] if isinstance(odd[0][1], str) else "a symbolic value"
+        rep.violation("O5", at, "residue", f"is_good is not the test `register == good-FCS value`: it is {n_free} in some case", file, fn.node.lineno)
+        return
+    pts = sorted(set(true_points))
+    if pts == [GOOD] and residue == GOOD:
+        rep.ok("O5", "good-FCS residue", f"repo step map composed with (~reg & 0xFF, ~reg >> 8) is the constant {hex(residue)}; is_good holds exactly for register = {hex(GOOD)} ({len(cs)} cases)")
+    elif not pts:
         rep.violation("O5", at, "residue", "is_good can never be true", file, fn.node.lineno)
+    elif len(pts) == 1:
+        rep.violation("O5", at, "residue", "is_good accepts a register value that is not the residue of the implemented step function",
+                      file, fn.node.lineno, witness=f"is_good true exactly for register {hex(pts[0])}; derived residue {hex(residue) if residue is not None else None}; RFC good-FCS {hex(GOOD)}")
     else:
-        rep.violation("O5", at, "residue", f"is_good constrains only {sol[1]} of the 16 register bits", file, fn.node.lineno)
+        rep.violation("O5", at, "extra-condition", "is_good is true for more than one register value: a message that does not end with its FCS can be reported good", file, fn.node.lineno,
+                      witness="true for registers " + ", ".join(hex(p_) for p_ in pts[:4]))
+
+
+def subst_bit(a, sub):
+    from sa.bitlin import subst_aff
+    return subst_aff(a, sub)
 
 
 # ---------------------------------------------------------------- window arithmetic (linear forms over start, length, len(data))
@@ -533,6 +538,21 @@ def _check_compute_checksum(rep, M, ce, fn, file, Ex):
     params = fn.params
     if len(params) != 3:
         raise Undecided("compute_checksum signature changed")
+    # a one-shot function keeps nothing between calls: no store to an attribute / global / subscript of anything it did not create itself
+    local_objs = {t.id for n in ast.walk(fn.node) if isinstance(n, ast.Assign) for t in n.targets if isinstance(t, ast.Name)}
+    for n in ast.walk(fn.node):
+        tg = n.targets if isinstance(n, ast.Assign) else [n.target] if isinstance(n, (ast.AugAssign, ast.AnnAssign)) else []
+        for t in tg:
+            base = t
+            while isinstance(base, (ast.Attribute, ast.Subscript)):
+                base = base.value
+            if isinstance(t, (ast.Attribute, ast.Subscript)) and not (isinstance(base, ast.Name) and base.id in local_objs and base.id not in params):
+                rep.violation("O7", at, "stateful", f"compute_checksum stores to `{ast.unparse(t)}`, state that outlives the call: a later call can return a value that depends on earlier calls "
+                              "instead of on its arguments", file, n.lineno)
+                return
+        if isinstance(n, (ast.Global, ast.Nonlocal)):
+            rep.violation("O7", at, "stateful", "compute_checksum declares global state", file, n.lineno)
+            return
     cells, mismatch, why_not = _window_grid(M, ce, fn, Ex)
     rep.count("window_cells", cells)
     if mismatch is not None:
